@@ -234,6 +234,11 @@ fn coalesce_extents(extents: &[(u64, usize)]) -> Result<Vec<(u64, usize)>> {
     Ok(coalesced)
 }
 
+#[cfg(feoxdb_verif)]
+pub(crate) fn verif_coalesce_extents(extents: &[(u64, usize)]) -> Result<Vec<(u64, usize)>> {
+    coalesce_extents(extents)
+}
+
 const RETIREMENT_WRITE_BLOCKS: usize = 256;
 
 pub struct DiskIO {
